@@ -8,19 +8,19 @@ CONSTANTS
   EngTargets <- AllT
   EngSensors <- AllS
   Policy <- PolGreedy
-  NSteps = 3
-  Dt = 3
-  OutDt = 3
-  Events <- Imp3
+  NSteps = 2
+  Dt = 1
+  OutDt = 1
+  Events <- NoEvents
   WithEstimation = TRUE
   WithSerendipity = FALSE
-  WithFaults = FALSE
+  WithFaults = TRUE
   ResetChangesPerJob = FALSE
   MissListSquared = FALSE
   KeepMissedAcrossSteps = FALSE
   PriorityToAllEngines = FALSE
-  PruneKeepsEqual = TRUE
-  PartialCommit = FALSE
+  PruneKeepsEqual = FALSE
+  PartialCommit = TRUE
 INVARIANT OneRecordPerTasking
 INVARIANT NoRecordWithoutTasking
 INVARIANT PointingReflectsTasking
